@@ -8,6 +8,7 @@ import (
 	"github.com/mimecast/dtail/internal/io/dlog"
 	"github.com/mimecast/dtail/internal/mapr"
 	"github.com/mimecast/dtail/internal/protocol"
+	"github.com/mimecast/dtail/internal/vhook"
 )
 
 // Aggregate mapreduce data on the DTail client side.
@@ -65,9 +66,13 @@ func (a *Aggregate) Aggregate(message string) error {
 	}
 
 	// Merge data from group into global group.
+	vhook.Point("cli.merge.attempt")
 	isMerged, err := a.globalGroup.MergeNoblock(a.query, a.group)
 	if err != nil {
 		panic(err)
+	}
+	if !isMerged {
+		vhook.Point("cli.merge.skipped")
 	}
 	if isMerged {
 		// Re-init local group (make it empty again).
